@@ -43,11 +43,15 @@ def extractedCfg : Cfg :=
 
 /-- the tables extracted from the source are adequate, and the structural facts the state machine assumes about the class hold
 (flag cleared first, fresh dict rebound, all five curve artefacts regenerated unconditionally, all lazy getters guarded,
-pointwise methods go through the guarded getters, the curves read the grading) -/
+pointwise methods go through the guarded getters, the curves read the grading, no setter can be left before its end — the
+`raises` table itself only counts flags raised by the unconditional leading assignments of a setter —, and the class holds no
+mutable container of its own: whatever an object serves is state of that object; every curve artefact is bound to a newly
+built object, never refreshed in place — shallow copies of a slurry share nothing that is written later) -/
 theorem C07_extracted :
     Adequate extractedCfg = true ∧ Effects.gsd_clears_flag_first = true ∧ Effects.gsd_rebinds_fresh_dict = true ∧
     Effects.curves_regenerates_all_unconditionally = true ∧ Effects.getters_guarded = true ∧
-    Effects.pointwise_use_guarded_getters = true ∧ Effects.curves_read_gsd = true := by
+    Effects.pointwise_use_guarded_getters = true ∧ Effects.curves_read_gsd = true ∧ Effects.setters_no_early_exit = true ∧
+    Effects.slurryClassLevelState = [] ∧ Effects.curves_rebind_fresh_objects = true := by
   decide
 
 /-- non-vacuity / sensitivity: a table in which the Dp setter does not raise the grading flag (the state of the source
